@@ -49,13 +49,18 @@ PERSIST_READS = ("::get_", "::enter", "::prepare", "::commit", "::on_initial_res
 EXCEPTIONS = {
     # (function, mutation site, cause of the refusal exit) -> reason.  Infeasible pairs established by reading; one
     # pair each: the same site followed by any *other* refusal is still reported.
-    (LS + "channel::Channel::revoke_previous_holder_commitment", "take", "call:advance_holder_commitment_state"):
+    # the private helper advance_holder_commitment_state (checked setter, then secret release) is transparent: it is analysed
+    # as part of revoke_previous_holder_commitment; its two fallible steps share one error exit (the caller's `?`)
+    (LS + "channel::Channel::revoke_previous_holder_commitment", "take", "call:release_commitment_secret"):
         "take() happens only on the branch new_current == next_holder_commit_num with info present; under that condition "
         "set_next_holder_commit_num's progression check (num == current + 1) holds and get_per_commitment_secret(n-1) "
-        "satisfies n-1+2 <= n+1, so advance_holder_commitment_state cannot fail afterwards",
-    (LS + "channel::Channel::revoke_previous_holder_commitment", "advance_holder_commitment_state", "call:advance_holder_commitment_state"):
+        "satisfies n-1+2 <= n+1, so neither the setter nor the release can fail afterwards",
+    (LS + "channel::Channel::revoke_previous_holder_commitment", "take", "call:set_next_holder_commit_num"):
+        "(the same pair when the setter's `?` has its own error exit, i.e. the helper was inlined by hand) under the branch "
+        "condition new_current == next_holder_commit_num the progression check num == current + 1 holds: the setter cannot fail",
+    (LS + "channel::Channel::revoke_previous_holder_commitment", "set_next_holder_commit_num", "call:release_commitment_secret"):
         "same condition: after the counter moved to n+1 the secret bound for n-1 and the point bound for n+1 hold, so the "
-        "release inside advance_holder_commitment_state cannot fail",
+        "release that follows the setter cannot fail",
     (LS + "channel::Channel::activate_initial_commitment", "take", "call:take"):
         "the Err exit is the else-arm of `if let Some(..) = take()`: it is taken only when take() returned None, i.e. "
         "when it changed nothing",
